@@ -662,3 +662,64 @@ Proof.
   set (t := Z.max T1 (Z.max T2 T3)).
   rewrite <- (H1 t), <- (H2 t), <- (H3 t) by lia. by apply cj_ev.
 Qed.
+
+(** the emitted amounts are non-negative *)
+Lemma cj_go_amts next e res xa xb k :
+  (forall d, amt res d <= amt (cmin xa xb) d) ->
+  (forall e' res', (forall d, amt res' d = amt (cmin xa xb) d) -> amts_ok (fst (k e' res'))) ->
+  amts_ok (fst (cj_go next e res xa xb k)).
+Proof.
+  intros Hle Hk. unfold cj_go, cj_emit.
+  replace (is_all_lte res (cmin xa xb)) with true
+    by (symmetry; apply is_all_lte_spec; intros d _; apply Hle).
+  destruct (is_zero (csub (cmin xa xb) res)) eqn:Ez.
+  - apply Hk. intros d. pose proof (proj1 (is_zero_spec _) Ez d) as Hz. rewrite amt_csub in Hz. lia.
+  - rewrite fst_pcons. constructor.
+    + intros d. cbn [emit amount]. rewrite amt_csub. specialize (Hle d). lia.
+    + apply Hk. intros d. rewrite amt_cadd, amt_csub. lia.
+Qed.
+
+Lemma cj_rest_a_amts ps : forall tp e res xa xb, amts_ok ps -> nonneg xb ->
+  (forall d, amt res d = amt (cmin xa xb) d) -> amts_ok (fst (cj_rest_a ps tp e res xa xb)).
+Proof.
+  induction ps as [|p r IH]; intros tp e res xa xb Ha Hxb Hres; cbn [cj_rest_a]; [constructor|].
+  inversion Ha as [|? ? Hp' Hr']; subst. apply cj_go_amts.
+  - intros d. rewrite Hres, !amt_cmin, amt_cadd. specialize (Hp' d). lia.
+  - intros e' res' Hres'. by apply IH.
+Qed.
+Lemma cj_rest_b_amts ps : forall tp e res xa xb, amts_ok ps -> nonneg xa ->
+  (forall d, amt res d = amt (cmin xa xb) d) -> amts_ok (fst (cj_rest_b ps tp e res xa xb)).
+Proof.
+  induction ps as [|p r IH]; intros tp e res xa xb Ha Hxa Hres; cbn [cj_rest_b]; [constructor|].
+  inversion Ha as [|? ? Hp' Hr']; subst. apply cj_go_amts.
+  - intros d. rewrite Hres, !amt_cmin, amt_cadd. specialize (Hp' d). lia.
+  - intros e' res' Hres'. by apply IH.
+Qed.
+
+Lemma cj_amts pa : forall ta pb tb e res xa xb, amts_ok pa -> amts_ok pb -> nonneg xa -> nonneg xb ->
+  (forall d, amt res d = amt (cmin xa xb) d) -> amts_ok (fst (cj pa ta pb tb e res xa xb)).
+Proof.
+  induction pa as [|a ra IHa]; intros ta pb tb e res xa xb Haa Hab Hxa Hxb Hres.
+  - rewrite cj_nil_l. by apply cj_rest_b_amts.
+  - revert tb e res xa xb Hxa Hxb Hres. induction pb as [|b rb IHb]; intros tb e res xa xb Hxa Hxb Hres.
+    + rewrite cj_nil_r. by apply cj_rest_a_amts.
+    + inversion Haa as [|? ? Hpa' Hra']; inversion Hab as [|? ? Hpb' Hrb']; subst.
+      rewrite cj_cons. cbv zeta.
+      destruct (_ <? _); [|destruct (_ <? _)]; apply cj_go_amts.
+      * intros d. rewrite Hres, !amt_cmin, amt_cadd. specialize (Hpa' d). lia.
+      * intros e' res' Hres'. apply IHa; try done. by apply nonneg_cadd.
+      * intros d. rewrite Hres, !amt_cmin, amt_cadd. specialize (Hpb' d). lia.
+      * intros e' res' Hres'. apply IHb; try done. by apply nonneg_cadd.
+      * intros d. rewrite Hres, !amt_cmin, !amt_cadd. specialize (Hpa' d). specialize (Hpb' d). lia.
+      * intros e' res' Hres'. apply IHa; try done; by apply nonneg_cadd.
+Qed.
+
+(** the merged schedule carries the sum of both totals *)
+Lemma dj_total d pa ta pb tb e :
+  amt (total_amount (fst (dj pa ta pb tb e))) d = amt (total_amount pa) d + amt (total_amount pb) d.
+Proof.
+  destruct (evd_eventually (fst (dj pa ta pb tb e)) e) as [T1 H1].
+  destruct (evd_eventually pa ta) as [T2 H2]. destruct (evd_eventually pb tb) as [T3 H3].
+  set (t := Z.max T1 (Z.max T2 T3)).
+  rewrite <- (H1 t), <- (H2 t), <- (H3 t) by lia. apply dj_ev.
+Qed.
